@@ -36,7 +36,7 @@ func GenScript(r *hx.Rand, kinds []string, nops int) []string {
 	if r.Chance(1, 3) {
 		cfg.Index = "dev"
 	}
-	if kind != "ac" && Corruption == 0 && r.Chance(1, 4) {
+	if kind != "ac" && r.Chance(1, 4) {
 		cfg.VCache = true
 	}
 	bs := bm.BlockSize()
@@ -53,6 +53,16 @@ func GenScript(r *hx.Rand, kinds []string, nops int) []string {
 		insts = []string{"a", "b", "-"}
 	default:
 		insts = []string{"-", "a", "ab", "a/b", "a/b/c", "b", "a-", "a-/b", "a/b-c"}
+	}
+	if r.Chance(1, 12) {
+		// long names that differ only beyond the first 256 bytes of the key string
+		switch kind {
+		case "flat":
+		case "flati", "ac":
+			insts = []string{"Z230a", "Z230b", "Z230"}
+		default:
+			insts = []string{"-", "Z220", "Z220/a", "Z220/b", "Z220/ab", "Z220/a/c", "Z221"}
+		}
 	}
 	nobj := r.Range(3, 7)
 	for i := 0; i < nobj; i++ {
